@@ -334,11 +334,43 @@ def run(facts, rep, ctx):
                 rep.inconc(v["rule"], "in the new helper %s, which could not be expanded into its callers: %s" % (raw.name, v["msg"]))
             for d in sub.inconclusive:
                 rep.inconc(d["rule"], d["reason"])
+    accessor_totality(facts, rep, pids, ctx)
     flagged = set((v["rule"], str(v["where"]).rsplit(":", 1)[-1]) for v in rep.violations)
     for raw, v in provisional:
         if (v["rule"], str(v["where"]).rsplit(":", 1)[-1]) in flagged:
             continue        # reported in context already
         rep.count("helper_sites_discharged_in_caller_context")
+
+
+def accessor_totality(facts, rep, pids, ctx):
+    """The layered parsers (text archive, aset, asset binary) read the untrusted image through BinArchive's positional
+    accessors and the stream reader built on them.  Their totality is C04's decision tables (guard <=> range at every
+    ordering class of address / size / amount, including near usize::MAX): an accessor reachable from a parser that
+    indexes where its guard lets an out-of-range address through panics on a crafted image.  The tables are evaluated
+    here for exactly the accessors in the parsers' reachable set."""
+    R6 = rep.rule("R05.6", "every BinArchive accessor reachable from a parser is total: its guard rejects exactly the out-of-range addresses at every ordering class (C04's decision tables, restricted to the parsers' reachable set)", floor=8)
+    import c04
+    sub = Report("C04")
+    try:
+        c04.run(facts, sub, ctx)
+    except Exception as ex:  # the imported analysis failing is not a verdict
+        rep.inconc(R6, "accessor tables could not be evaluated: %s" % ex)
+        return
+    reach_names = set(facts.bodies[i].name for i in pids)
+    seen = set()
+    for v in sub.violations:
+        if v["rule"] != "R04.2" or v["fn"] not in reach_names:
+            continue
+        kind = v["key"].rsplit("|", 1)[-1]
+        if kind in ("panic", "accepts-invalid", "access-before-error"):
+            seen.add(v["fn"])
+            rep.violation(R6, v["fn"], "accessor:" + kind, "reachable from the parsers: " + v["msg"], v["where"])
+    for d in sub.inconclusive:
+        if d["rule"] == "R04.2":
+            rep.inconc(R6, d["reason"])
+    for smp in sub.samples:
+        if smp["rule"] == "R04.2" and smp["instance"].get("fn") in reach_names and smp["instance"]["fn"] not in seen:
+            rep.ok(R6, {"accessor": smp["instance"]["fn"], "classes": smp["instance"].get("classes")})
 
 
 PANIC_FNS = ("core::panicking::panic", "core::panicking::panic_fmt", "core::panicking::panic_explicit", "std::rt::begin_panic",
